@@ -108,7 +108,7 @@ type UFun struct {
 
 var clauseRe = regexp.MustCompile(`^([A-Za-z0-9_.]+):\s*(.*)$`)
 
-var keywords = map[string]bool{"func": true, "props": true, "safety": true, "requires": true, "ensures": true, "loop": true, "site": true, "inline": true, "trusted": true, "pred": true, "callers": true, "writers": true, "dyncall": true, "chan": true, "cover": true, "pure": true, "ufun": true, "preserves": true, "noauto": true, "package": true}
+var keywords = map[string]bool{"func": true, "props": true, "safety": true, "requires": true, "ensures": true, "loop": true, "site": true, "inline": true, "trusted": true, "pred": true, "callers": true, "writers": true, "dyncall": true, "chan": true, "cover": true, "pure": true, "ufun": true, "preserves": true, "noauto": true, "package": true, "layout": true}
 
 func loadContracts(root string) (*Contracts, error) {
 	cs := &Contracts{Funcs: map[string]*FuncContract{}, Preds: map[string]*Pred{}, UFuns: map[string]*UFun{}}
@@ -335,6 +335,14 @@ func (cs *Contracts) parseFile(path, pkg string) error {
 				wl.ValueIs = head[3]
 			}
 			cs.WLs = append(cs.WLs, wl)
+		case "layout":
+			// layout <label> <Type> : Name:type, Name:type, ...
+			i := strings.Index(rest, ":")
+			head := strings.Fields(rest[:max(i, 0)])
+			if i < 0 || len(head) != 2 {
+				return fmt.Errorf("%s:%d: bad layout", path, d.line)
+			}
+			cs.WLs = append(cs.WLs, &Whitelist{Kind: "layout", Label: head[0], Target: head[1], Allowed: splitList(rest[i+1:]), Props: props, Pkg: pkg, File: path, Line: d.line})
 		case "dyncall":
 			// dyncall Iface.Method preserves A.f, B.g because ...
 			i := strings.Index(rest, " preserves ")
